@@ -215,10 +215,13 @@ class GoExec:
                 o.trivial = True
                 self.obls.append(o)
             return
-        key = (self.frame.key if self.frame else '?', name, tuple(self.trace), src)
+        # (the goal is part of the key: two different checks on one source line -- two index expressions, two arithmetic
+        # operations, two requires clauses -- share a name and must both be kept; identical goals on one path are one)
+        key = (self.frame.key if self.frame else '?', name, tuple(self.trace), src, goal.get_id() if isinstance(goal, z3.ExprRef) else None)
         if key in self.obl_keys:
             return
         self.obl_keys.add(key)
+        self.__dict__.setdefault('_obl_goal_refs', []).append(goal)      # (keeps the term alive: its id is part of the key)
         if kind == 'proof' and (z3.is_quantifier(goal) or (z3.is_app(goal) and goal.decl().kind() == z3.Z3_OP_IMPLIES)):
             # a quantified goal that is literally one of the hypotheses (an invariant that holds on entry because it is a
             # precondition, a postcondition on a path that changes nothing): solvers can spend their whole budget on it
